@@ -100,7 +100,16 @@ class Sender:
                     lead.append(q)
             for k, sz in enumerate(sizes):
                 seg = 1 if k == 0 else (3 if k == len(sizes) - 1 else 2)
-                body = wire.msg_header(p, seg, sz) + p['pl'][off:off + sz]
+                ph = p
+                if k > 0 and rng.random() < 0.3:
+                    # a continuation segment whose header differs from the first segment's (flags, timestamp, ids):
+                    # the reassembled message keeps the first segment's header
+                    ph = dict(p)
+                    ph['fl'] = (p['fl'] ^ rng.choice([0x01, 0x02, 0x10, 0x20, 0x80])) & ~0x4C
+                    ph['ts'] = wire.rbytes(rng, 8)
+                    ph['ifid'] = wire.rbytes(rng, 4)
+                    ph['vid'] = rng.randrange(65536)
+                body = wire.msg_header(ph, seg, sz) + p['pl'][off:off + sz]
                 if k == 0 and lead:
                     pre = []
                     for q in lead:
@@ -368,6 +377,14 @@ def anyhist(seed, nepisodes, prefix, tecmp=True):
                 ops.append({'op': 'decode', 'in': mutate(rng, f)})
             elif r < 0.88:
                 ops.append({'op': 'decode', 'in': wire.rbytes(rng, rng.choice([0, 1, 7, 8, 9, 23, 24, 25, 40])), 'pendBefore': True})
+            elif r < 0.885 and len(f) > 24 and (f[20] & 0x0C) in (0x08, 0x0C):
+                # an unsegmented message squeezed in front of a continuation segment, in the same frame
+                q = wire.packet(rng, 'generic', 3)
+                q['mt'] = f[4]
+                q['fl'] &= ~0x4C
+                if Kind_typed(q['mt'], q['pt']):
+                    q['pt'] = 0x42
+                ops.append({'op': 'decode', 'in': list(f[:8]) + wire.msg_header(q, 0, len(q['pl'])) + q['pl'] + list(f[8:])})
             elif r < 0.9:
                 # a buffer that is no capture-module frame (leading 0x00) but whose bytes look like this endpoint's frame
                 ops.append({'op': 'decode', 'in': [0] + list(f[1:rng.randrange(8, 28)]), 'pendBefore': True})
